@@ -26,10 +26,10 @@ import DadiVerif.Model.LowPass
                                                           block = loci#sels; loci = locus;locus;… or `-`; locus = pop/pop/…; pop = d:b,d:b,… (depth : binomial
                                                           draw, one per individual); sels = pop/pop/…; pop = sel,sel,… or `-`; sel = i.i.… positions among the
                                                           sorted called genotypes, in the order subsample_genotypes_1D returns its rows)
-   errors: err odd (odd haplotype number), err F (F = 1 or outside [0,1)), err size, err cov, err missing-sim,
    lp_corrected_draws thr pops model tables -> ok <nd>   output of lowpass_func with the simulated tables computed by the model from recorded draws:
                                                          corrected (axesOf pops) thr model (fun i => simTable pops i (draws i)) — the object of C18_total_le_simulated
                                                          (tables = `-` | af=blocks!af=blocks!…, af and blocks as for lp_simtable)
+   errors: err odd (odd haplotype number), err F (F = 1 or outside [0,1)), err size, err cov, err missing-sim,
            err nan (a generated definedness condition fails: the code would evaluate 0 ** -1 or x / 0; lp_simtable: no locus simulated, 0/0),
            err draws (lp_simtable: the draws do not have the shape the sizes require) -/
 namespace DadiVerif.Driver.LowPass
